@@ -46,24 +46,39 @@ type c18Service struct {
 }
 
 type c18Compute struct {
-	name                string
-	cpuText             string
-	cpuMilli            uint64
-	cpuExact            bool
-	memText             string
-	memBytes            uint64
-	memExact            bool
-	stoText             string
-	stoBytes            uint64
-	stoExact            bool
+	name     string
+	cpuText  string
+	cpuMilli uint64
+	cpuExact bool
+	memText  string
+	memBytes uint64
+	memExact bool
+	stoText  string
+	stoBytes uint64
+	stoExact bool
+	stoAttrs map[string]string // storage attributes (free-form key/value)
+	cpuArch  string            // cpu attribute "arch", "" = none
+}
+
+func c18AttrString(kv map[string]string) string {
+	var ks []string
+	for k := range kv {
+		ks = append(ks, k)
+	}
+	sort.Strings(ks)
+	out := ""
+	for _, k := range ks {
+		out += k + "=" + kv[k] + ";"
+	}
+	return out
 }
 
 type c18Placement struct {
-	name     string
-	attrs    map[string]string
-	allOf    []string
-	anyOf    []string
-	pricing  map[string]int64 // compute profile -> uakt
+	name    string
+	attrs   map[string]string
+	allOf   []string
+	anyOf   []string
+	pricing map[string]int64 // compute profile -> uakt
 }
 
 type c18Deploy struct {
@@ -197,9 +212,30 @@ func (d *c18Doc) yaml(t *rapid.T, permute bool) (string, bool) {
 	var comps []yKV
 	for _, c := range d.computes {
 		comps = append(comps, yKV{c.name, []yKV{{"resources", []yKV{
-			{"cpu", []yKV{{"units", yq(c.cpuText)}}},
+			{"cpu", func() []yKV {
+				kv := []yKV{{"units", yq(c.cpuText)}}
+				if c.cpuArch != "" {
+					kv = append(kv, yKV{"attributes", []yKV{{"arch", yq(c.cpuArch)}}})
+				}
+				return kv
+			}()},
 			{"memory", []yKV{{"size", yq(c.memText)}}},
-			{"storage", []yKV{{"size", yq(c.stoText)}}},
+			{"storage", func() []yKV {
+				kv := []yKV{{"size", yq(c.stoText)}}
+				if len(c.stoAttrs) > 0 {
+					var ks []string
+					for k := range c.stoAttrs {
+						ks = append(ks, k)
+					}
+					sort.Strings(ks)
+					var akv []yKV
+					for _, k := range ks {
+						akv = append(akv, yKV{k, yq(c.stoAttrs[k])})
+					}
+					kv = append(kv, yKV{"attributes", akv})
+				}
+				return kv
+			}()},
 		}}}})
 	}
 	var places []yKV
@@ -276,6 +312,15 @@ func c18Gen(t *rapid.T) *c18Doc {
 	nc := rapid.IntRange(1, 3).Draw(t, "computes")
 	for i := 0; i < nc; i++ {
 		c := c18Compute{name: fmt.Sprintf("cp%d", i)}
+		if na := rapid.IntRange(0, 3).Draw(t, "storageAttrs"); na > 0 {
+			c.stoAttrs = map[string]string{}
+			for _, k := range rapid.Permutation([]string{"class", "persistent", "tier"}).Draw(t, "storageAttrKeys")[:na] {
+				c.stoAttrs[k] = rapid.SampledFrom([]string{"default", "beta2", "true"}).Draw(t, "storageAttrVal")
+			}
+		}
+		if rapid.IntRange(0, 3).Draw(t, "cpuArch") == 0 {
+			c.cpuArch = rapid.SampledFrom([]string{"amd64", "arm64"}).Draw(t, "arch")
+		}
 		switch rapid.IntRange(0, 2).Draw(t, "cpuForm") {
 		case 0:
 			m := uint64(rapid.IntRange(10, 2000).Draw(t, "cpuMilli"))
@@ -562,6 +607,24 @@ func TestVerif_C18(t *testing.T) {
 			}
 			if !near(ms.Resources.Storage.Quantity.Value(), c.stoBytes, c.stoExact) {
 				bad("storage", ms.Resources.Storage.Quantity.Value(), c.stoText)
+			}
+			gotSto := map[string]string{}
+			for _, a := range ms.Resources.Storage.Attributes {
+				gotSto[a.Key] = a.Value
+			}
+			if c18AttrString(gotSto) != c18AttrString(c.stoAttrs) || len(ms.Resources.Storage.Attributes) != len(c.stoAttrs) {
+				bad("storage attributes", ms.Resources.Storage.Attributes, c18AttrString(c.stoAttrs))
+			}
+			wantArch := ""
+			if c.cpuArch != "" {
+				wantArch = "arch=" + c.cpuArch + ";"
+			}
+			gotCPU := map[string]string{}
+			for _, a := range ms.Resources.CPU.Attributes {
+				gotCPU[a.Key] = a.Value
+			}
+			if c18AttrString(gotCPU) != wantArch {
+				bad("cpu attributes", ms.Resources.CPU.Attributes, wantArch)
 			}
 			// exposure as a multiset of tuples
 			var want, got []string
